@@ -16,7 +16,7 @@ pub fn def() -> PropDef {
     PropDef {
         id: "C17",
         level: "model_checking",
-        rule: "(A) every registration sequence of length <= d over 7 peers on one document, and every sequence one step shorter over 7 peers plus the question (get_sync_peers asked in the middle of the history); (B) every (state, event) edge of the complete state graph of one document (all 3620 ordered lists of <= 5 distinct peers out of 7, each built canonically, x 7 registrations), the successor compared with the canonically built successor state; (C) two documents pre-filled to capacity plus an unknown document: every sequence of length <= d2 over {register peer p on doc i, register on unknown doc}; (D) reopen of a file-backed store at every prefix of every sequence of (A) up to length 4; (E) every sequence of length <= d3 over {register peer 1|2, create, remove} x {a document that exists, a document that does not}: a registration must fail exactly while the document does not exist (never created or removed), fail without effect, and a re-created document starts with an empty list (memory, and file-backed with a reopen at the end); the hook clock yields strictly increasing nanos; oracle = a Vec MRU of capacity 5; non-trivial = the sequence re-registers a peer or exceeds the capacity",
+        rule: "(A) every registration sequence of length <= d over 7 peers on one document, and every sequence one step shorter over 7 peers plus the question (get_sync_peers asked in the middle of the history); (B) every (state, event) edge of the complete state graph of one document (all 3620 ordered lists of <= 5 distinct peers out of 7, each built canonically, x 7 registrations), the successor compared with the canonically built successor state; (C) two documents pre-filled to capacity plus an unknown document: every sequence of length <= d2 over {register peer p on doc i, register on unknown doc}; (D) reopen of a file-backed store at every prefix of every sequence of (A) up to length 4; (E) every sequence of length <= d3 over {register peer 1|2, create, remove} x {a document that exists, a document that does not}: a registration must fail exactly while the document does not exist (never created or removed), fail without effect, and a re-created document starts with an empty list (memory, and file-backed with a reopen at the end); the hook clock yields strictly increasing nanos; oracle = a Vec MRU of capacity 5; non-trivial = the sequence re-registers a peer or exceeds the capacity; family M: store files of the redb 2.x format (written here with redb 3 and the legacy tuple types) holding 0, 1, 3, 5 registered peers are opened with Store::persistent, which converts them: the list must be the one stored; family R: registration sequences on the machine's own clock (no clock hook) with a file-backed store reopened at every prefix",
         assumptions: &[
             "the nanosecond clock is strictly increasing (hook); equal nanos / clock regressions are outside the statement",
         ],
@@ -359,8 +359,92 @@ fn all_lists() -> Vec<Vec<u8>> {
     out
 }
 
+/// Family M: the store file was written by the releases that used redb 2.x (variable-width tuples
+/// carry another type tag there; `Store::persistent` converts such a file when it opens it). The
+/// file is written here with redb 3 and the legacy tuple types, the way the crate's own migration
+/// test does it, with `n` registered peers for the document: after opening, the list must be the
+/// one that was stored.
+fn old_format_store(n_peers: u8) -> Vec<(&'static str, String)> {
+    use redb_v3::{Legacy, MultimapTableDefinition, TableDefinition};
+    type RecordsKey<'a> = (&'a [u8; 32], &'a [u8; 32], &'a [u8]);
+    type RecordsValue<'a> = (u64, &'a [u8; 64], &'a [u8; 64], u64, &'a [u8; 32]);
+    const RECORDS: TableDefinition<Legacy<RecordsKey>, RecordsValue> = TableDefinition::new("records-1");
+    const LATEST: TableDefinition<(&[u8; 32], &[u8; 32]), Legacy<(u64, &[u8])>> = TableDefinition::new("latest-by-author-1");
+    const BY_KEY: TableDefinition<Legacy<(&[u8; 32], &[u8], &[u8; 32])>, ()> = TableDefinition::new("records-by-key-1");
+    const NAMESPACES: TableDefinition<&[u8; 32], (u8, &[u8; 32])> = TableDefinition::new("namespaces-2");
+    const PEERS: MultimapTableDefinition<&[u8; 32], (u64, &[u8; 32])> = MultimapTableDefinition::new("sync-peers-1");
+    let mut bad = vec![];
+    let dir = scratch_dir();
+    let path = dir.path().join("docs.redb");
+    let ns = ns_id(0).to_bytes();
+    let e = crate::universe::Spec::new(0, 0, b"k", 1, crate::universe::Val::X).signed();
+    let res: anyhow::Result<()> = (|| {
+        let db = redb_v3::Database::create(&path)?;
+        let tx = db.begin_write()?;
+        {
+            let (kind, bytes) = Capability::Write(ns_secret(0)).raw();
+            tx.open_table(NAMESPACES)?.insert(&ns, (kind, &bytes))?;
+            let author = e.author().to_bytes();
+            let raw = crate::mirror::RawSigned::of(&e);
+            let (ns_sig, au_sig) = (raw.ns_sig, raw.author_sig);
+            tx.open_table(RECORDS)?.insert((&ns, &author, e.key()), (e.timestamp(), &ns_sig, &au_sig, e.content_len(), e.content_hash().as_bytes()))?;
+            tx.open_table(LATEST)?.insert((&ns, &author), (e.timestamp(), e.key()))?;
+            tx.open_table(BY_KEY)?.insert((&ns, e.key(), &author), ())?;
+            let mut peers = tx.open_multimap_table(PEERS)?;
+            for i in 0..n_peers {
+                peers.insert(&ns, (1_000 + i as u64, &peer(i)))?;
+            }
+        }
+        tx.commit()?;
+        Ok(())
+    })();
+    if let Err(e) = res {
+        return vec![("MACHINERY", format!("cannot write the old-format file: {e:#}"))];
+    }
+    for cycle in 1..=2 {
+        let mut sut = match Sut::persistent(&path) {
+            Ok(s) => s,
+            Err(e) => {
+                bad.push(("old_format_store_opens", format!("cycle {cycle}: {e:#}")));
+                break;
+            }
+        };
+        let got = get(&mut sut, &ns_id(0));
+        let want: Option<Vec<[u8; 32]>> = (n_peers > 0).then(|| (0..n_peers).rev().map(peer).collect());
+        if got != want {
+            bad.push(("list_survives_reopening", format!("a store file of the redb 2.x format with {n_peers} registered peers, opened (cycle {cycle}): get_sync_peers = {:?}, stored (most recent first) {:?}", got.map(|v| v.iter().map(|p| p[0]).collect::<Vec<_>>()), want.map(|v| v.iter().map(|p| p[0]).collect::<Vec<_>>()))));
+        }
+        if sut.dump(ns_id(0)) != vec![e.clone()] {
+            bad.push(("MACHINERY", format!("cycle {cycle}: the entry of the old-format file is not readable after the conversion")));
+        }
+        drop(sut);
+    }
+    bad
+}
+
 fn run(ctx: &Ctx, report: &mut Report) {
     crate::util::silence_panics();
+    for n_peers in [0u8, 1, 3, 5] {
+        if ctx.shard != (2 + n_peers as u64) % ctx.of {
+            continue;
+        }
+        report.evaluations += 1;
+        report.nontrivial += (n_peers > 0) as u64;
+        report.count("old_format_store_files", 1);
+        let case = json!({"old_format_peers": n_peers});
+        match catch(|| old_format_store(n_peers)) {
+            Err(p) => report.violation("no_panic", json!({"family": "M"}), case, format!("panic: {p}"), 0),
+            Ok(bad) => {
+                for (o, d) in bad {
+                    if o == "MACHINERY" {
+                        report.machinery_error(d);
+                    } else {
+                        report.violation(o, json!({"family": "M", "old_format": true}), case.clone(), d, 0);
+                    }
+                }
+            }
+        }
+    }
     let mut ordinal = 0u64;
     let quick = ctx.quick();
     // (A)
@@ -481,6 +565,15 @@ fn run(ctx: &Ctx, report: &mut Report) {
 }
 
 fn replay(case: &Value) -> anyhow::Result<(bool, String)> {
+    if let Some(n) = case.get("old_format_peers").and_then(|n| n.as_u64()) {
+        return match catch(|| old_format_store(n as u8)) {
+            Err(p) => Ok((true, format!("panic: {p}"))),
+            Ok(bad) => {
+                let out: String = bad.iter().map(|(o, d)| format!("FAILED {o}: {d}\n")).collect();
+                Ok((!bad.is_empty(), format!("store file of the redb 2.x format with {n} registered peers\n{out}")))
+            }
+        };
+    }
     if !case["life"].is_null() {
         let ops: Vec<LifeOp> = serde_json::from_value(case["life"].clone())?;
         let file_backed = case["file_backed"].as_bool().unwrap_or(false);
